@@ -221,4 +221,356 @@ theorem handlePlusLine_inv {cfg : Cfg} {m m' : M} {l : L} {b : Bool}
     · cases e
     · exact plusLineFinish_inv e (calm_flushMP h.order)
 
+theorem handleHunkHeader_inv {cfg : Cfg} {m m' : M} {l : L} {b : Bool}
+    (e : handleHunkHeader cfg m l = .ok (b, m')) (h : Inv m) : Inv m' := by
+  unfold handleHunkHeader at e
+  split at e
+  · cases e; exact h
+  · split at e
+    · cases e
+    · cases e; exact h
+    · cases e; exact inv_set_st h rfl rfl
+
+theorem handleModeLine_inv {cfg : Cfg} {m m' : M} {l : L} {b : Bool}
+    (e : handleModeLine cfg m l = .ok (b, m')) (h : Inv m) : Inv m' := by
+  unfold handleModeLine at e
+  split at e
+  · split at e
+    · cases e
+    · split at e <;> (cases e; exact inv_set_st h rfl rfl)
+  · split at e
+    · split at e
+      · cases e
+      · split at e <;> (cases e; exact inv_set_st h rfl rfl)
+    · cases e; exact h
+
+theorem handleAdditionalCases_inv {cfg : Cfg} {m m' : M} {l : L} {b : Bool} {to : State}
+    (e : handleAdditionalCases cfg m l to = .ok (b, m')) (h : Inv m) : Inv m' := by
+  unfold handleAdditionalCases at e
+  have c : Calm { flushMP m with st := to } := calm_of_eq (calm_flushMP h.order) rfl rfl rfl
+  split at e
+  · cases e
+  · cases e; exact (calm_writeGeneric cfg _ _ (calm_emit c) (by simp)).inv
+  · cases e; exact c.inv
+
+theorem handleMisc_inv {cfg : Cfg} {m m' : M} {l : L} {b : Bool}
+    (e : handleMisc cfg m l = .ok (b, m')) (h : Inv m) : Inv m' := by
+  unfold handleMisc at e
+  simp only at e
+  split at e
+  · cases e; exact h
+  · split at e
+    · split at e
+      · cases e
+        exact Calm.inv (calm_of_eq (calm_emitLineUnchanged l h.order) rfl rfl rfl)
+      · cases e; exact inv_of_eq h rfl rfl rfl rfl
+    · exact handleAdditionalCases_inv e h
+
+theorem handleSubmoduleLog_inv {cfg : Cfg} {m m' : M} {l : L} {b : Bool}
+    (e : handleSubmoduleLog cfg m l = .ok (b, m')) (h : Inv m) : Inv m' := by
+  unfold handleSubmoduleLog at e
+  split at e
+  · cases e; exact h
+  · exact handleAdditionalCases_inv e h
+
+theorem handleSubmoduleShort_inv {cfg : Cfg} {m m' : M} {l : L} {b : Bool}
+    (e : handleSubmoduleShort cfg m l = .ok (b, m')) (h : Inv m) : Inv m' := by
+  unfold handleSubmoduleShort at e
+  split at e
+  · cases e; exact h
+  · split at e
+    · cases e; exact h
+    · split at e
+      · cases e; exact inv_set_st h rfl rfl
+      · cases e; exact (calm_direct _ (calm_emit (calm_flushMP h.order)) (by simp)).inv
+      · cases e; exact h
+
+theorem inv_emit {m : M} (h : Inv m) : Inv (emit m) := inv_of_eq h rfl rfl rfl rfl
+
+theorem inv_flushMP {m : M} (h : Inv m) : Inv (flushMP m) := (calm_flushMP h.order).inv
+
+theorem emitHunkHeader_calm {cfg : Cfg} {m m' : M} {hh : HunkHeader} {line raw : Str} {src : Nat}
+    (e : emitHunkHeader cfg m hh line raw src = .ok m') (h : m.orderOk = true) : Calm m' ∧ m'.st = m.st := by
+  unfold emitHunkHeader at e
+  split at e
+  · cases e
+  · cases e
+    exact ⟨calm_direct _ (calm_emit (calm_flushMP h)) (by simp), by simp⟩
+
+theorem hunkLinePre_inv {cfg : Cfg} {m m' : M} (e : hunkLinePre cfg m = .ok m') (h : Inv m) :
+    Inv m' ∧ m'.st = m.st := by
+  unfold hunkLinePre at e
+  simp only at e
+  split at e
+  · rename_i hst
+    have ho : (if m.minus.length > cfg.bufSize ∨ m.plus.length > cfg.bufSize then flushMP m else m).orderOk = true := by
+      split <;> simp [h.order]
+    have hs : (if m.minus.length > cfg.bufSize ∨ m.plus.length > cfg.bufSize then flushMP m else m).st = m.st := by
+      split <;> simp
+    obtain ⟨c, hst'⟩ := emitHunkHeader_calm e ho
+    exact ⟨c.inv, hst'.trans hs⟩
+  · cases e
+    split
+    · exact ⟨inv_flushMP h, by simp⟩
+    · exact ⟨h, rfl⟩
+
+theorem hunkLinePush_inv {cfg : Cfg} {m m' : M} {l : L} (e : hunkLinePush cfg m l = .ok m') (h : Inv m) :
+    Inv m' := by
+  unfold hunkLinePush at e
+  split at e
+  · cases e
+  · split at e
+    · cases e
+    · cases e
+      refine inv_set_st (m := m) h ?_ rfl
+      simp only; split <;> simp
+  · split at e
+    · cases e
+    · cases e; exact inv_set_st h rfl rfl
+  · split at e
+    · cases e
+    · cases e; exact inv_set_st (m := m) h (by simp) rfl
+  · cases e; exact inv_set_st (m := m) h (by simp) rfl
+
+theorem handleHunkLine_inv {cfg : Cfg} {m m' : M} {l : L} {b : Bool}
+    (e : handleHunkLine cfg m l = .ok (b, m')) (h : Inv m) : Inv m' := by
+  unfold handleHunkLine at e
+  split at e
+  · cases e; exact h
+  · split at e
+    · cases e
+    · rename_i m2 e2
+      split at e
+      · cases e
+      · rename_i m3 e3
+        cases e
+        exact inv_emit (hunkLinePush_inv e3 (hunkLinePre_inv e2 h).1)
+
+theorem mcPaintOne_calm (cfg : Cfg) {m : M} (name : Option Str) (derived : List HLine)
+    (c : Calm m) (hb : m.buf = []) : Calm (mcPaintOne cfg m name derived) ∧ (mcPaintOne cfg m name derived).buf = [] := by
+  unfold mcPaintOne
+  have c2 := calm_emit (calm_direct (mcHeaderRows cfg m name m.n) c hb)
+  exact ⟨calm_emit (calm_of_eq c2 rfl rfl rfl), by simp⟩
+
+theorem paintMergeConflict_calm (cfg : Cfg) {m : M} (mp : MergeParents) (c : Calm m) :
+    Calm (paintMergeConflict cfg m mp) := by
+  unfold paintMergeConflict
+  have c1 := calm_direct [{ kind := RowKind.mcBar, text := cfg.mcBeginSymbol, src := m.n }] (calm_emit c) (by simp)
+  have hb1 : (direct (emit m) [{ kind := RowKind.mcBar, text := cfg.mcBeginSymbol, src := m.n }]).buf = [] := by simp
+  obtain ⟨c2, hb2⟩ := mcPaintOne_calm cfg
+    (direct (emit m) [{ kind := RowKind.mcBar, text := cfg.mcBeginSymbol, src := m.n }]).mcNameOurs
+    (direct (emit m) [{ kind := RowKind.mcBar, text := cfg.mcBeginSymbol, src := m.n }]).mcOurs c1 hb1
+  obtain ⟨c3, hb3⟩ := mcPaintOne_calm cfg (mcPaintOne cfg _ _ _).mcNameTheirs (mcPaintOne cfg _ _ _).mcTheirs c2 hb2
+  have c4 := calm_direct [{ kind := RowKind.mcBar, text := cfg.mcEndSymbol, src := m.n }] c3 hb3
+  exact calm_of_eq c4 rfl rfl rfl
+
+theorem calm_of_quiet {m : M} (h : Inv m) (q : quietState m.st = true) : Calm m :=
+  ⟨h.order, (h.quiet q).1, (h.quiet q).2⟩
+
+theorem storeLine_inv {cfg : Cfg} {m m' : M} {l : L} {c : MCCommit} {mp : MergeParents} {k : RowKind}
+    (e : storeLine cfg m l c mp k = .ok m') (h : Inv m) : Inv m' := by
+  unfold storeLine at e
+  split at e
+  · cases e
+  · simp only at e
+    split at e <;> (cases e; exact inv_of_eq h rfl rfl rfl rfl)
+
+theorem enterAncestral_inv {m m' : M} {l : L} {mp : MergeParents} (e : enterAncestral m l mp = some m')
+    (c : Calm m) : Inv m' := by
+  unfold enterAncestral at e
+  simp only [Option.map_eq_some_iff] at e
+  obtain ⟨_, _, rfl⟩ := e
+  exact Calm.inv (calm_of_eq c rfl rfl rfl)
+
+theorem enterTheirs_inv {m m' : M} {l : L} {mp : MergeParents} (e : enterTheirs m l mp = some m')
+    (c : Calm m) : Inv m' := by
+  unfold enterTheirs at e
+  split at e
+  · cases e; exact Calm.inv (calm_of_eq c rfl rfl rfl)
+  · cases e
+
+theorem exitMergeConflict_inv {cfg : Cfg} {m m' : M} {l : L} {mp : MergeParents}
+    (e : exitMergeConflict cfg m l mp = some m') (c : Calm m) : Inv m' := by
+  unfold exitMergeConflict at e
+  simp only [Option.map_eq_some_iff] at e
+  obtain ⟨_, _, rfl⟩ := e
+  refine Calm.inv (paintMergeConflict_calm cfg mp ?_)
+  exact calm_of_eq c rfl rfl rfl
+
+theorem storeOr_inv {o : Option M} {alt : Except String M} {b : Bool} {m' : M}
+    (e : storeOr o alt = .ok (b, m')) (ho : ∀ x, o = some x → Inv x) (ha : ∀ x, alt = .ok x → Inv x) : Inv m' := by
+  unfold storeOr at e
+  split at e
+  · cases e; exact ho _ rfl
+  · split at e
+    · cases e
+    · cases e; exact ha _ rfl
+
+theorem orElse_some {α : Type} {a b : Option α} {x : α} (h : (a <|> b) = some x) : a = some x ∨ b = some x := by
+  cases a with
+  | some v => left; simpa using h
+  | none => right; simpa using h
+
+theorem handleMergeConflict_inv {cfg : Cfg} {m m' : M} {l : L} {b : Bool}
+    (e : handleMergeConflict cfg m l = .ok (b, m')) (h : Inv m) : Inv m' := by
+  unfold handleMergeConflict at e
+  split at e
+  · cases e; exact h
+  · split at e
+    all_goals first
+      | (split at e
+         · cases e; exact Calm.inv (calm_of_eq (calm_flushMP h.order) rfl rfl rfl)
+         · cases e; exact h)
+      | (rename_i hst
+         have c : Calm m := calm_of_quiet h (by rw [hst]; rfl)
+         refine storeOr_inv e ?_ (fun x hx => storeLine_inv hx h)
+         intro x hx
+         first
+           | (rcases orElse_some hx with h1 | h2
+              · exact enterAncestral_inv h1 c
+              · rcases orElse_some h2 with h3 | h4
+                · exact enterTheirs_inv h3 c
+                · exact exitMergeConflict_inv h4 c)
+           | (rcases orElse_some hx with h3 | h4
+              · exact enterTheirs_inv h3 c
+              · exact exitMergeConflict_inv h4 c)
+           | exact exitMergeConflict_inv hx c)
+      | (cases e; exact h)
+
+theorem handleGitShowFile_inv {cfg : Cfg} {m m' : M} {l : L} {b : Bool}
+    (e : handleGitShowFile cfg m l = .ok (b, m')) (h : Inv m) : Inv m' := by
+  unfold handleGitShowFile at e; cases e; exact inv_emit h
+
+theorem handleBlame_inv {cfg : Cfg} {m m' : M} {l : L} {b : Bool}
+    (e : handleBlame cfg m l = .ok (b, m')) (h : Inv m) : Inv m' := by
+  unfold handleBlame at e
+  simp only at e
+  split at e
+  · rename_i hc
+    cases e
+    have c : Calm m := calm_of_quiet h (by rcases hc.1 with h1 | h1 <;> (rw [h1]; rfl))
+    exact Calm.inv (calm_of_eq (calm_direct _ (calm_emit c) (by simp)) rfl rfl rfl)
+  · cases e; exact inv_emit h
+
+theorem handleGrep_inv {cfg : Cfg} {m m' : M} {l : L} {b : Bool}
+    (e : handleGrep cfg m l = .ok (b, m')) (h : Inv m) : Inv m' := by
+  unfold handleGrep at e
+  simp only at e
+  split at e
+  · rename_i hc
+    have c : Calm m := calm_of_quiet h (by rcases hc.1 with h1 | h1 <;> (rw [h1]; rfl))
+    split at e
+    · cases e; exact inv_emit h
+    · cases e
+      exact Calm.inv (calm_of_eq (calm_direct _ (calm_emit c) (by simp)) rfl rfl rfl)
+  · cases e; exact inv_emit h
+
+theorem handleShouldSkip_inv {cfg : Cfg} {m m' : M} {l : L} {b : Bool}
+    (e : handleShouldSkip cfg m l = .ok (b, m')) (h : Inv m) : Inv m' := by
+  unfold handleShouldSkip at e
+  split at e
+  · cases e
+  · cases e; exact h
+
+theorem handleEmitUnchanged_inv {cfg : Cfg} {m m' : M} {l : L} {b : Bool}
+    (e : handleEmitUnchanged cfg m l = .ok (b, m')) (h : Inv m) : Inv m' := by
+  unfold handleEmitUnchanged at e; cases e; exact (calm_emitLineUnchanged l h.order).inv
+
+/-- every handler of the model preserves the ordering invariant -/
+theorem handlerOf_inv {name : String} {hd : Handler} (hn : handlerOf name = some hd)
+    {cfg : Cfg} {m m' : M} {l : L} {b : Bool} (e : hd cfg m l = .ok (b, m')) (h : Inv m) : Inv m' := by
+  unfold handlerOf at hn
+  split at hn <;> first
+    | (cases hn
+       first
+         | exact handleCommitMeta_inv e h | exact handleDiffStat_inv e h | exact handleDiffHeaderDiff_inv e h
+         | exact handleFileOperation_inv e h | exact handleMinusLine_inv e h | exact handlePlusLine_inv e h
+         | exact handleHunkHeader_inv e h | exact handleModeLine_inv e h | exact handleMisc_inv e h
+         | exact handleSubmoduleLog_inv e h | exact handleSubmoduleShort_inv e h
+         | exact handleMergeConflict_inv e h | exact handleHunkLine_inv e h | exact handleGitShowFile_inv e h
+         | exact handleBlame_inv e h | exact handleGrep_inv e h | exact handleShouldSkip_inv e h
+         | exact handleEmitUnchanged_inv e h)
+    | cases hn
+
+theorem chain_inv {cfg : Cfg} {l : L} : ∀ (names : List String) {m m' : M},
+    chain cfg l names m = .ok m' → Inv m → Inv m'
+  | [], m, m', e, h => by simp only [chain] at e; cases e; exact h
+  | name :: rest, m, m', e, h => by
+    simp only [chain] at e
+    split at e
+    · cases e
+    · rename_i hd hn
+      split at e
+      · cases e
+      · rename_i m1 e1
+        cases e; exact handlerOf_inv hn e1 h
+      · rename_i m1 e1
+        exact chain_inv rest e (handlerOf_inv hn e1 h)
+
+theorem stepInit_inv {m : M} (l : L) (h : Inv m) : Inv (stepInit m l) := by
+  unfold stepInit armCounter
+  repeat' split
+  all_goals first | exact h | exact inv_of_eq h rfl rfl rfl rfl
+
+theorem step_inv {cfg : Cfg} {m m' : M} {l : L} (e : step cfg m l = .ok m') (h : Inv m) : Inv m' := by
+  unfold step at e
+  split at e
+  · cases e
+  · rename_i m2 e2
+    cases e
+    exact inv_of_eq (chain_inv _ e2 (stepInit_inv l h)) rfl rfl rfl rfl
+
+theorem runFrom_inv {cfg : Cfg} : ∀ (ls : List L) {m m' : M}, runFrom cfg m ls = .ok m' → Inv m → Inv m'
+  | [], m, m', e, h => by simp only [runFrom] at e; cases e; exact h
+  | l :: ls, m, m', e, h => by
+    simp only [runFrom] at e
+    split at e
+    · cases e
+    · rename_i m1 e1
+      exact runFrom_inv ls e (step_inv e1 h)
+
+theorem tailOp_order {cfg : Cfg} {m m' : M} {op : String} (e : tailOp cfg m op = .ok m')
+    (h : m.orderOk = true) (hq : op = "handle_pending_line_with_diff_name" → m.minus = [] ∧ m.plus = []) :
+    m'.orderOk = true ∧ (m.minus = [] ∧ m.plus = [] → m'.minus = [] ∧ m'.plus = []) := by
+  unfold tailOp at e
+  split at e
+  · cases e; exact ⟨by simp [h], fun _ => by simp⟩
+  · obtain ⟨hm, hp⟩ := hq rfl
+    obtain ⟨c, _⟩ := pendingDiffName_calm cfg ⟨h, hm, hp⟩ e
+    exact ⟨c.order, fun _ => ⟨c.minus, c.plus⟩⟩
+  · cases e; exact ⟨by simp [h], fun q => by simpa using q⟩
+  · cases e
+
+/-- The tail of `consume`, in the statement order extracted from the source, keeps the order flag.
+(Re-checked against `Generated.Markers.consumeTail` on every run.) -/
+theorem finish_order {cfg : Cfg} {m m' : M} (e : finish cfg m = .ok m') (h : Inv m) : m'.orderOk = true := by
+  unfold finish at e
+  simp only [Generated.Markers.consumeTail, tailOps] at e
+  split at e
+  · cases e
+  · rename_i m1 e1
+    obtain ⟨o1, _⟩ := tailOp_order e1 h.order (by intro hh; exact absurd hh (by decide))
+    have q1 : m1.minus = [] ∧ m1.plus = [] := by
+      simp only [tailOp] at e1; cases e1; exact ⟨by simp, by simp⟩
+    split at e
+    · cases e
+    · rename_i m2 e2
+      obtain ⟨o2, k2⟩ := tailOp_order e2 o1 (fun _ => q1)
+      split at e
+      · cases e
+      · rename_i m3 e3
+        cases e
+        exact (tailOp_order e3 o2 (by intro hh; exact absurd hh (by decide))).1
+
+theorem inv_init : Inv ({} : M) := ⟨rfl, fun _ => ⟨rfl, rfl⟩⟩
+
+/-- Whatever the input and the configuration: when the run completes, no row was written to the
+output while an earlier row was still held back in the output buffer or the line buffers. -/
+theorem run_order {cfg : Cfg} {ls : List L} {m : M} (e : run cfg ls = .ok m) : m.orderOk = true := by
+  unfold run at e
+  split at e
+  · cases e
+  · rename_i m1 e1
+    exact finish_order e (runFrom_inv ls e1 inv_init)
+
 end Machine
